@@ -72,7 +72,9 @@ func c09Snapshot(roots []*lisp.LVal) []c09Node {
 		seen[v] = true
 		n := c09Node{ptr: v, typ: v.Type, str: v.Str, i: v.Int, f: v.Float, ft: v.FunType, quoted: v.IsQuoted(), sealed: v.IsSealed(), n: len(v.Cells), c: cap(v.Cells)}
 		n.src, n.hasSrc = v.Source()
-		n.kids = append(n.kids, v.Cells...)
+		// the children AND whatever sits in the spare capacity behind them: a write into
+		// the unused tail of a sealed node's backing array is shared mutable state too
+		n.kids = append(n.kids, v.Cells[:cap(v.Cells)]...)
 		out = append(out, n)
 		for _, c := range v.Cells {
 			walk(c, d+1)
@@ -106,6 +108,9 @@ func c09Compare(a, b []c09Node) string {
 		}
 		for k := range x.kids {
 			if x.kids[k] != y.kids[k] {
+				if k >= x.n {
+					return fmt.Sprintf("node %d (%v %q, %d cells): slot %d of the SPARE CAPACITY of its backing array was written", i, x.typ, x.str, x.n, k)
+				}
 				return fmt.Sprintf("node %d child %d swapped (e.g. a literal's elements were permuted in place)", i, k)
 			}
 		}
@@ -160,6 +165,9 @@ var c09Mutators = []struct{ name, form string }{
 	{"append!-slice-whole-twice", "(let ([a (slice 'vector V 0 (length V))] [b (slice 'vector V 0 (length V))]) (append! a 1) (append! b 2) (list a b))"},
 	{"funcall-optional-sort", "(funcall (lambda (&optional (xs V)) (stable-sort < xs)))"},
 	{"key-arg-sort", "(funcall (lambda (&key xs) (stable-sort < xs)) :xs V)"},
+	// forms the evaluator REWRITES before calling (step forms of 2-8 elements)
+	{"thread-last-steps", "(thread-last V (concat 'list '(7 7)) (list 0 1) (list 0 1 2 3) (list 0 1 2 3 4) (list 0 1 2 3 4 5) (reverse 'list))"},
+	{"thread-first-steps", "(thread-first V (concat 'list '(7 7)) (list 0 1) (list 0 1 2 3) (list 0 1 2 3 4 5 6) (car))"},
 }
 
 func c09TemplateSource(r *fw.RNG, k int) (src, label string) {
